@@ -155,7 +155,7 @@ func (o *obs) expectedTrace(m *lrm.Machine, in string) []string {
 				la = o.vw.RefToSym[toks[pos]]
 			}
 		}
-		next, sr := m.Step(c, la, 4000)
+		next, sr := m.Step(c, la, 4000+2*len(toks))
 		for _, ev := range sr.Events {
 			switch ev.Kind {
 			case 's', 'g':
